@@ -449,9 +449,10 @@ def _calculate_statistic(
 
     min_x: float64 = min(x)
     if isnan(p).any():
-        y = zeros(3, dtype=float64)
-        for i, _x in enumerate((min_x, intercept_x, max_x)):
-            y[i] = y[argmin(abs(x - _x)).flatten()]
+        y = array(
+            [y[argmin(abs(x - _x))] for _x in (min_x, intercept_x, max_x)],
+            dtype=float64,
+        )
     else:
         x = array([min_x, intercept_x, max_x], dtype=float64)
         y = _intersecting_lines_function(x, *p)
